@@ -1,6 +1,7 @@
 //! mlasim: deterministic simulation with fault injection for ANSSI-FR/MLA.
 mod model;
 mod props;
+mod refmla;
 mod rng;
 mod runner;
 mod seams;
